@@ -1,11 +1,14 @@
 //! hx_c36: namespace catalog behaves as a hierarchical map (C36).
+mod c36;
 mod filt;
 mod ops;
 mod probe;
+mod refmap;
 
 fn main() {
     let (sub, args) = hxlib::util::Args::parse();
     let code = match sub.as_str() {
+        "c36" => c36::run(&args),
         "probe" => probe::run(&args),
         "explore" => filt::explore(&args),
         _ => {
